@@ -46,7 +46,7 @@ func vsimRun(r *sim.Run) {
 		var err error
 		r.Guard("packager", func() {
 			// one fragment per segment, payload inside the fragment: what combine-segs documents
-			p, err = work.Package(r, work.PackOpts{MaxTracks: 1, MaxSegs: nSegs, MinSegs: nSegs, MaxFrags: 1, MaxSamples: 8, NoMeta: true, Styp: []int{1, 2}[t.Draw(2)]})
+			p, err = work.Package(r, work.PackOpts{MaxTracks: 1, MaxSegs: nSegs, MinSegs: nSegs, MaxFrags: 1, MaxSamples: 8, NoMeta: true, LargeMdat: true, Styp: []int{1, 2}[t.Draw(2)]})
 		})
 		if err != nil || p == nil {
 			r.Violate("packager-error", "a documented-valid API history failed: %v", err)
